@@ -10,7 +10,7 @@ from .lib.mir import AnchorLost
 CONFIGS_QUICK = ["A"]
 CONFIGS_THOROUGH = ["A", "R"]
 TECHNIQUE = "vocabulary tables read from the compiled constants and from the derive(Serialize) output (the keys serde really writes) vs the OpenAPI 3.1 / JSON Schema 2020-12 fixed fields; sibling-family rule over IntoHandler impls; exhaustiveness over authentication fangs"
-LEVEL_TEXT = ('Decides clauses C15-a..e: every SchemaType::NAME is a JSON Schema 2020-12 type name (or empty = any); the keys each OpenAPI object actually serializes'
+LEVEL_TEXT = ('Decides clauses C15-a..f: every SchemaType::NAME is a JSON Schema 2020-12 type name (or empty = any); the keys each OpenAPI object actually serializes'
               ' (read from the derive output, renames applied) are fixed fields of that object in OpenAPI 3.1, required fields are written unconditionally, and '
               'keywords the meta-schema types as number/boolean/string/array carry a Rust type of that kind; ParameterKind is within {path,query,header,cookie}; '
               'Operations::register accepts exactly the lower-case Path Item methods gen_openapi_doc produces; path parameters are required; each IntoHandler impl '
@@ -18,8 +18,8 @@ LEVEL_TEXT = ('Decides clauses C15-a..e: every SchemaType::NAME is a JSON Schema
               'parameters from the route template in order and registers every referenced schema and security scheme component; every builtin fang that can answer '
               '401 overrides openapi_map_operation with a security requirement; the route table the document is generated from only ever accumulates (registering or '
               'mounting onto an existing route extends its method map, never replaces it); the builder methods whose calls C15-b counts (Operation::param, '
-              'Schema::property/optional, Paths::at) add their element unconditionally on every call. Decides these clauses, not document <=> application for all '
-              'applications.')
+              'Schema::property/optional, Paths::at) add their element unconditionally on every call; RawSchema::into_properties flags a property as required by '
+              'membership of its name in the whole `required` list. Decides these clauses, not document <=> application for all applications.')
 
 JSON_SCHEMA_TYPES = {"string", "number", "integer", "boolean", "array", "object", "null", ""}
 FIXED = {
@@ -57,6 +57,7 @@ def run(ck, progs):
         ck.guard("C15-c EXHAUSTIVE security", lambda: c15c(ck, prog))
         ck.guard("C15-d PAIR route table", lambda: c15d(ck, prog))
         ck.guard("C15-e MUSTPASS accumulators", lambda: c15e(ck, prog))
+        ck.guard("C15-f PAIR required flag", lambda: c15f(ck, prog))
     ck.config = None
 
 
@@ -327,3 +328,29 @@ def c15e(ck, prog):
               "" if ok else "%s does not add to `%s` on every call (%s): %s -- a skipped element leaves the document short of what the application does "
               "(two path parameters with equal schemas are equal when added, so a de-duplicating `param` drops the second one)" % (f.key, field, why_not, why),
               how="one unconditional %s on self.%s dominating the return" % (adds[0].name if adds else "push", field))
+
+
+def c15f(ck, prog):
+    """Query/cookie/flattened parameters are documented from RawSchema::into_properties, which pairs each property with
+    `is it required`. `properties` is kept sorted by name while `required` is in declaration order, so the flag must be the
+    membership of *that name* in the whole `required` list -- not a positional walk of the two lists."""
+    R = "C15-f PAIR required flag"
+    f = prog.one(r"^ohkami_openapi::schema::RawSchema::into_properties$")
+    bodies = [f] + prog.descendants(f.key)
+    found = []
+    for g in bodies:
+        for st in (s_ for bi in sorted(g.live_blocks()) for s_ in g.blocks[bi]["st"]):
+            if st["k"] == "=" and st["r"][0] == "agg" and st["r"][1].get("k") == "tuple" and len(st["r"][2]) == 3:
+                flag = st["r"][2][2]
+                d = decision.describe_deep(g, flag, 5)
+                name = decision.describe_deep(g, st["r"][2][0], 3)
+                found.append((g, st, d, name))
+    if not found:
+        raise AnchorLost("into_properties builds no (name, schema, required) tuple")
+    for g, st, d, name in found:
+        m = re.match(r"(contains|any)\((.*)\)$", d)
+        ok = m is not None and "required" in d and (name in d or m.group(1) == "any")
+        ck.ob(R, "into_properties:flag-is-membership", ok, g.loc(st.get("sp")),
+              "" if ok else "into_properties computes the `required` flag of a property as `%s`: it is not the membership of the property's name in the whole `required` list, so with the name-sorted "
+              "property map and the declaration-ordered required list a required field (`{name, age}` -> `age`) is documented as optional" % d[:80],
+              how="required.contains(&name)")
